@@ -14,7 +14,7 @@
 From Coq Require Import ZArith List Bool.
 From PTK Require Import Lib.Sx Lib.Py Model.C15_HistLines Model.C15_Async Proofs.C15_Base Proofs.C15_User
   Proofs.C15_Sched Proofs.C15_Cfg Proofs.C15_Theorems Proofs.C15_Rebase Proofs.C15_Round4 Proofs.C15_Det
-  Proofs.C15_HistLines Proofs.C15_DetComp Proofs.C15_Round6.
+  Proofs.C15_HistLines Proofs.C15_DetComp Proofs.C15_Round6 Model.C15_Thread Proofs.C15_Thread.
 Import ListNotations.
 Open Scope Z_scope.
 
@@ -502,3 +502,27 @@ Example C15_does_nothing_wraps_outside :
   let d := mkdoc [97; 98] 2 in let c := mkc [98] (-3) d in
   does_nothing d c = true /\ apply_comp d c = ([98], 1).
 Proof. vm_compute. split; reflexivity. Qed.
+
+(* ---- round 7: at most one completer run per buffer at any time ---------------
+   Model/C15_Thread.v: the producer thread of generator_to_async_generator
+   under ThreadedCompleter and Buffer's async completer (`running` guard,
+   aclosing, `quitting`, the join `await runner_f` in the async generator's
+   finally, _Retry).  [trun_all (tinit true) ls]: the state after ANY list of
+   start_completion / cancel / typing / "the thread of run i computes one more
+   item or finds the iterable exhausted" steps, the code as it is.
+   [computing s]: the producer threads that are inside
+   completer.get_completions() in state s. *)
+Theorem C15_one_completer_run : forall ls,
+  let s := trun_all (tinit true) ls in
+  (length (computing s) <= 1)%nat /\ (computing s <> [] -> t_running s = true).
+Proof. exact one_producer. Qed.
+Print Assumptions C15_one_completer_run.
+
+(* what the join in aclose() is for ([tinit false]: join only after a normally
+   exhausted stream): Tab, one item arrives, the user types, the next item
+   makes the consumer abandon the stream and restart for the new text while
+   the thread for the old text is still inside the completer *)
+Theorem C15_one_completer_run_needs_the_join :
+  exists ls, length (computing (trun_all (tinit false) ls)) = 2%nat.
+Proof. exact one_producer_needs_join. Qed.
+Print Assumptions C15_one_completer_run_needs_the_join.
